@@ -86,14 +86,22 @@ func StrSz(lo, hi int64) Ty {
 	}
 	return Ty{K: "strsz", Lo: lo, Hi: hi}
 }
-func StrVal(s string) Ty                     { return Ty{K: "strval", S: []string{s}} }
-func Enum(ci bool, vs ...string) Ty          { return Ty{K: "enum", CI: ci, S: vs} }
-func Pat(srcs ...string) Ty                  { return Ty{K: "pat", S: srcs} }
-func Rx(src string) Ty                       { return Ty{K: "rx", S: []string{src}} }
-func Coll(lo, hi int64) Ty                   { return Ty{K: "coll", Lo: lo, Hi: hi} }
-func Arr(e Ty, lo, hi int64) Ty              { return Ty{K: "arr", Ts: []Ty{e}, Lo: lo, Hi: hi} }
-func Hash(k, v Ty, lo, hi int64) Ty          { return Ty{K: "hash", Ts: []Ty{k, v}, Lo: lo, Hi: hi} }
-func Tup(ts []Ty) Ty                         { return Ty{K: "tup", Ts: ts} }
+func StrVal(s string) Ty            { return Ty{K: "strval", S: []string{s}} }
+func Enum(ci bool, vs ...string) Ty { return Ty{K: "enum", CI: ci, S: vs} }
+func Pat(srcs ...string) Ty         { return Ty{K: "pat", S: srcs} }
+func Rx(src string) Ty              { return Ty{K: "rx", S: []string{src}} }
+func Coll(lo, hi int64) Ty          { return Ty{K: "coll", Lo: lo, Hi: hi} }
+func Arr(e Ty, lo, hi int64) Ty     { return Ty{K: "arr", Ts: []Ty{e}, Lo: lo, Hi: hi} }
+func Hash(k, v Ty, lo, hi int64) Ty { return Ty{K: "hash", Ts: []Ty{k, v}, Lo: lo, Hi: hi} }
+
+// Tup: a tuple without an explicit size.  NewTupleType(no types, nil size) IS the empty tuple Tuple[0, 0]
+// (pcore fix 902262f), so the term with no types and no size is written in that normal form.
+func Tup(ts []Ty) Ty {
+	if len(ts) == 0 {
+		return TupSz(ts, 0, 0)
+	}
+	return Ty{K: "tup", Ts: ts}
+}
 func TupSz(ts []Ty, lo, hi int64) Ty         { return Ty{K: "tup", Ts: ts, HasSize: true, Lo: lo, Hi: hi} }
 func Struct(ms ...Member) Ty                 { return Ty{K: "struct", Ms: ms} }
 func Var(ts ...Ty) Ty                        { return Ty{K: "var", Ts: ts} }
